@@ -242,16 +242,16 @@ Theorem multi_use_stop_no_deadlock : forall (V : Type) (ncons : nat) (beh : nat 
 Proof. exact @multi_use_stop_no_deadlock_lem. Qed.
 
 (* Composition over the deep embedding of Conc/Pipeline.v: EVERY pipeline (stages with nested operand pipelines,
-   every terminal), EVERY assignment of schedule inputs to its concurrent stages - (k, decision, worker count >= 1,
-   schedule) for map/accept and the escaping-list / nested-list maps, a schedule of the two producers and the consumer
-   for merge and m.merge(m); the assignment may differ between traversals of the same stage: the outcome is the
-   sequential denotation.
-   _partial: multiUse (a terminal of the embedding) is still denoted sequentially on both sides; its protocol is
-   multi_use_each_sees_source / multi_use_sequential_views / multi_use_error_reported and is composed with the rest by
-   the correspondence run only. *)
-Theorem pipeline_par_eq_seq_partial : forall (asg : assignment), assignment_ok asg ->
+   every terminal), EVERY assignment of schedule inputs to the stages and terminals the library runs on more than one
+   goroutine - (k, decision, worker count >= 1, schedule) for map/accept and the escaping-list / nested-list maps
+   (MapAuto/FilterAuto), a schedule of the two producers and the consumer for merge and m.merge(m) (ToChan + stop flag),
+   a schedule of producer and consumers for the terminal multiUse (CopyProducer with failing consumers); the assignment
+   may differ between traversals of the same stage: the outcome is the sequential denotation.
+   All remaining stages and terminals run on the calling goroutine in the library as well, so nothing concurrent is
+   denoted sequentially on the parallel side any more. *)
+Theorem pipeline_par_eq_seq : forall (asg : assignment) (tsched : sp -> list Z -> list qchoice), assignment_ok asg ->
   forall (n : Z) (stages : list pstage) (t : tkind) (tp : sp),
-  pipe_par_with asg n stages t tp = pipe_seq n stages t tp.
+  pipe_par_with asg tsched n stages t tp = pipe_seq n stages t tp.
 Proof. exact pipeline_par_eq_seq_lem. Qed.
 
 (* non-vacuity: 3 workers, 5 items from index 12, item 14 fails; results arrive as 13,12,14,16,15; complete *)
@@ -354,7 +354,7 @@ Print Assumptions merge_chan_prefix.
 Print Assumptions merge_no_deadlock.
 Print Assumptions multi_use_each_sees_source.
 Print Assumptions multi_use_no_deadlock.
-Print Assumptions pipeline_par_eq_seq_partial.
+Print Assumptions pipeline_par_eq_seq.
 Print Assumptions map_auto_early_stop_prefix.
 Print Assumptions filter_auto_early_stop_prefix.
 Print Assumptions merge_seq_stop_prefix.
